@@ -855,6 +855,14 @@ impl<'a> Searcher<'a> {
     ) -> Variant {
         let column_expr_str = column_expr.to_string();
 
+        // a literal is its own value; it must not be looked up in the cache, where the text
+        // `Size` is also the key of the column `size`
+        if column_expr.left.is_none() && column_expr.function.is_none() && column_expr.field.is_none() {
+            if let Some(ref value) = column_expr.val {
+                return Variant::from_signed_string(value, column_expr.minus);
+            }
+        }
+
         #[cfg(feature = "verif")]
         if crate::verif::enabled() {
             crate::verif::emit("memo", &[
